@@ -96,6 +96,12 @@ def make_summaries(avail, default):
     def ret(st, v):
         return [(st, v)]
 
+    def write_ptr(m, st, p, v):
+        if p[2]:
+            st.mem[p[1]] = mir2.set_path(st.mem[p[1]], p[2], v)
+        else:
+            st.mem[p[1]] = v
+
     def pure_mir(regex):
         def f(m, st, args, callee):
             fn = m.fn(regex)
@@ -172,20 +178,69 @@ def make_summaries(avail, default):
     def s_ident(m, st, args, callee):
         return ret(st, args[0])
 
+    def s_adapt(kind):
+        def f(m, st, args, callee):
+            return ret(st, ("adapt", kind, args[0], args[1], False))
+        return f
+
+    def iter_next(m, st, it):
+        """-> [(state, new iterator value, option)]: std semantics of slice iterators and of the lazy adaptors
+        filter / take_while / skip_while / map over them"""
+        if it[0] == "iter":
+            if it[2] < len(it[1]):
+                return [(st, ("iter", it[1], it[2] + 1), ("opt", z3.BoolVal(True), it[1][it[2]]))]
+            return [(st, it, ("opt", z3.BoolVal(False), None))]
+        if it[0] != "adapt":
+            raise Unsupported("next on %r" % (it,))
+        _, kind, inner, clos, done = it
+        if done:
+            return [(st, it, ("opt", z3.BoolVal(False), None))]
+        out = []
+        for st1, inner2, o in iter_next(m, st, inner):
+            if z3.is_false(z3.simplify(o[1])):
+                out.append((st1, ("adapt", kind, inner2, clos, done), o))
+                continue
+            item = o[2]
+            if kind == "map":
+                for st2, v in m.call_closure(st1, clos, [item]):
+                    out.append((st2, ("adapt", kind, inner2, clos, done), ("opt", z3.BoolVal(True), v)))
+                continue
+            m.frame_counter += 1
+            key = (m.frame_counter, "adapt_item")
+            st1.mem[key] = item
+            for st2, b in m.call_closure(st1, clos, [("ptr", key, ())]):
+                for val, cond in ((True, b), (False, z3.Not(b))):
+                    if not m.feasible(st2, cond):
+                        continue
+                    st3 = st2.fork(z3.simplify(cond))
+                    if kind == "filter":
+                        if val:
+                            out.append((st3, ("adapt", kind, inner2, clos, False), ("opt", z3.BoolVal(True), item)))
+                        else:
+                            out.extend(iter_next(m, st3, ("adapt", kind, inner2, clos, False)))
+                    elif kind == "take_while":
+                        if val:
+                            out.append((st3, ("adapt", kind, inner2, clos, False), ("opt", z3.BoolVal(True), item)))
+                        else:
+                            out.append((st3, ("adapt", kind, inner2, clos, True), ("opt", z3.BoolVal(False), None)))
+                    elif kind == "skip_while":
+                        if val:
+                            out.extend(iter_next(m, st3, ("adapt", kind, inner2, clos, False)))
+                        else:
+                            # from now on everything passes: behave like the inner iterator
+                            out.append((st3, inner2, ("opt", z3.BoolVal(True), item)))
+                    else:
+                        raise Unsupported("iterator adaptor %s" % kind)
+        return out
+
     def s_next(m, st, args, callee):
         p = args[0]
         it = m.deref_all(st, p)
-        if it[2] < len(it[1]):
-            item = it[1][it[2]]
-            st.mem[p[1]] = mir2.set_path(st.mem[p[1]], p[2], ("iter", it[1], it[2] + 1)) if p[2] else ("iter", it[1], it[2] + 1)
-            return ret(st, ("opt", z3.BoolVal(True), item))
-        return ret(st, ("opt", z3.BoolVal(False), None))
-
-    def write_ptr(m, st, p, v):
-        if p[2]:
-            st.mem[p[1]] = mir2.set_path(st.mem[p[1]], p[2], v)
-        else:
-            st.mem[p[1]] = v
+        out = []
+        for st1, it2, o in iter_next(m, st, it):
+            write_ptr(m, st1, p, it2)
+            out.append((st1, o))
+        return out
 
     def s_retain(m, st, args, callee):
         vp, clos = args
@@ -359,6 +414,11 @@ def make_summaries(avail, default):
         (r"impl \[L\]>::to_vec$", s_to_vec),
         (r"impl \[LanguageIdentifier\]>::iter$", s_iter),
         (r"Iterator>::cloned::<", s_ident),
+        (r"Iterator>::copied::<", s_ident),
+        (r"Iterator>::take_while::<", s_adapt("take_while")),
+        (r"Iterator>::skip_while::<", s_adapt("skip_while")),
+        (r"Iterator>::filter::<", s_adapt("filter")),
+        (r"Iterator>::map::<", s_adapt("map")),
         (r"as IntoIterator>::into_iter$", s_ident),
         (r"Iterator>::next$", s_next),
         (r"^Vec::<L>::retain::<", s_retain),
@@ -468,7 +528,10 @@ def native(default, avail, reqs):
     body = NATIVE_MAIN.replace("@REQS@", ", ".join(replay.rust_str(r) for r in reqs))
     replay.setup_crate(d, body)
     env = dict(os.environ, CARGO_NET_OFFLINE="true", CARGO_TARGET_DIR=replay.TARGET)
-    p = subprocess.run(["cargo", "run", "--quiet"], cwd=replay.CRATE, env=env, capture_output=True, text=True, timeout=1800)
+    try:
+        p = subprocess.run(["cargo", "run", "--quiet"], cwd=replay.CRATE, env=env, capture_output=True, text=True, timeout=1800)
+    finally:
+        replay.unlock()
     if p.returncode != 0:
         raise replay.ReplayError(p.stderr[-2000:])
     for l in p.stdout.split("\n"):
@@ -547,7 +610,7 @@ def run(tier, seed):
         "bounds": "supported sets %s; request lists of length 2 (thorough: 3 for 2-locale sets); every entry either fails to parse (ignored) or is a fully symbolic language identifier: any language code, optional script, optional region, at most one variant. Outside: longer request lists, several variants, parsing of Accept-Language strings (convert_vec_str_to_langids_lossy / ICU)." % [a for _, a in SETS],
         "inconclusive": inconclusive,
     }, wall, [
-        "LanguageIdentifier::try_from_bytes is an uninterpreted parser: each entry has a free boolean 'parses' and free subtags", "std / icu summaries: into_iter / filter_map / map_while / collect, Vec new/to_vec/retain/push/sort_by(stable, comparator executed from MIR)/first, slice iter/cloned/next, Option is_some/is_none/copied/unwrap_or_default, PartialEq on subtags, Language::is_empty, Variants deref; any other call makes the check inconclusive",
+        "LanguageIdentifier::try_from_bytes is an uninterpreted parser: each entry has a free boolean 'parses' and free subtags", "std / icu summaries: into_iter / filter_map / map_while / collect / filter / take_while / skip_while / map / next, Vec new/to_vec/retain/push/sort_by(stable, comparator executed from MIR)/first, slice iter/cloned/next, Option is_some/is_none/copied/unwrap_or_default, PartialEq on subtags, Language::is_empty, Variants deref; any other call makes the check inconclusive",
         "language / script / region / variant subtags are opaque 32-bit codes compared for equality only (what the code does with TinyAsciiStr)",
         "Locale: AsRef<LanguageIdentifier> returns the identifier of the configured name (C13)",
     ], violations)
